@@ -13,14 +13,13 @@ Open Scope Z_scope.
    rejected and valid mutations notifying exactly the copy on every container path, write-once stays
    written) holds on the model's observation of a copy taken by ANY copy operation after ANY history
    of assignments and nested appends (valid or rejected) on an object of ANY class with distinct trait
-   names whose container types are List/Dict/Set nestings over Int — the two listed findings excluded:
-   not every trait is transient (or the copy is a pickle), and no Any/ReadOnly trait without copy
-   metadata is deep-copied by copy.deepcopy. *)
+   names whose container types are List/Dict/Set nestings over Int — the listed finding excluded: no
+   Any/ReadOnly trait without copy metadata is deep-copied by copy.deepcopy (which copies it by
+   reference). *)
 Theorem law_holds_after_every_history :
   forall (op : copyop) (c : cls) (hs : list hop),
     NoDup (map fst c) ->
     (forall k d, In (k, d) c -> simple (td_type d) = true) ->
-    copies_all op c = false ->
     (forall k d, In (k, d) c -> td_type d = TAny \/ td_type d = TReadOnly ->
                  law_mode op d = CDeep -> effective op d = CDeep) ->
     law op c (model_obs op c hs) = [].
@@ -52,9 +51,8 @@ Proof.
 Qed.
 Print Assumptions roundtrip_values.
 
-(* transient traits (and never-set ones) are not carried over: the copy reads their default.
-   [skipped] is false for transient traits when EVERY trait is transient and the copy is not a
-   pickle (all_transient_refuted below). *)
+(* transient traits (and never-set ones) are not carried over: the copy reads their default
+   ([skipped] = the trait is transient) — also when EVERY trait is transient (repair 28581b3). *)
 Theorem transients_reset :
   forall op c src o n k d, NoDup (map fst c) -> In (k, d) c ->
     skipped op c d = true \/ vget src k = None -> vget (fst (do_copy op c src o n)) k = None.
@@ -129,15 +127,13 @@ Proof.
 Qed.
 Print Assumptions deepcopy_any_shared_refuted.
 
-(* with only transient traits, clone_traits / deepcopy copy the transient values *)
-Theorem all_transient_refuted :
-  exists c src, let '(cv, _) := do_copy (Clone None) c src 1 200 in vget cv 0 = Some (Sc 5)
-                /\ (exists d, In (0, d) c /\ td_transient d = true).
-Proof.
-  exists [(0, {| td_type := TInt; td_transient := true; td_copy := None |})], [(0, Sc 5)].
-  vm_compute. split; [reflexivity|]. eexists. split; [left; reflexivity | reflexivity].
-Qed.
-Print Assumptions all_transient_refuted.
+(* with only transient traits (the case repaired by 28581b3) nothing is copied, under every operation *)
+Example all_transient_reset :
+  let c := [(0, {| td_type := TInt; td_transient := true; td_copy := None |});
+            (1, {| td_type := TCont TInt; td_transient := true; td_copy := None |})] in
+  map (fun op => fst (do_copy op c [(0, Sc 5); (1, Ct 100 (Some 0) [Sc 3])] 1 200))
+      [Pickle; Deepcopy; Clone None; Clone (Some CShallow); Clone (Some CDeep)] = [[]; []; []; []; []].
+Proof. vm_compute. reflexivity. Qed.
 
 (* Non-vacuity: a class with a nested container trait, an Any trait, a transient and a write-once
    trait; after a history with a rejected item the pickled copy satisfies the whole law, the
